@@ -75,7 +75,7 @@ def scratch_apply(patch):
 
 
 def run_check(prop, scale, extra_env=None):
-    env = dict(os.environ, VERIF_SCALE=str(scale), VERIF_SELFTEST_BIN=f"{MUT}/target/release/cactus-sim", VERIF_SELFTEST_OUT=f"{MUT}/out")
+    env = dict(os.environ, VERIF_SCALE=str(scale), VERIF_SELFTEST_BIN=f"{MUT}/target/release/cactus-sim", VERIF_SELFTEST_OUT=f"{MUT}/out", VERIF_SELFTEST_SIM=f"{MUT}/sim")
     env.update(extra_env or {})
     r = subprocess.run([sys.executable, os.path.join(D.VERIF, "driver", "driver.py"), "check", prop, "quick"], stdout=subprocess.PIPE, stderr=subprocess.STDOUT, text=True, env=env, cwd=D.VERIF)
     viol = [l for l in r.stdout.splitlines() if l.startswith("VIOLATION")]
